@@ -5,7 +5,7 @@ from model.core import canon, typed_equal
 
 
 def pure_sources(world):
-    written_by = {n["writes"] for n in world["nodes"] if n.get("writes")}
+    written_by = ref.derived_stores(world)
     return {n["store"] for n in world["nodes"] if n["kind"] == "src" and n["store"] not in written_by}
 
 
@@ -198,6 +198,15 @@ def o_writeread(rec, world, hist):
                 if r_ok is None or first < r_ok:
                     out.append(V("consumer-before-readback", f"call {c} consumes rebuilt stored node {n} but started at seq "
                                                              f"{first}, before {name} was read back (read ok end {r_ok})"))
+                    return out
+        # a source that (merely) depends on the rebuilt node is read only after the write
+        for m in world["nodes"]:
+            if m["kind"] == "src" and n in ds[m["id"]]:
+                rs = ix.sstarts.get(("read", m["store"]), [])
+                if rs and (w_end is None or rs[0][0] < w_end):
+                    out.append(V("source-read-before-write", f"source {m['id']} ({m['store']}) depends on rebuilt stored node "
+                                                             f"{n} but was read at seq {rs[0][0]}, before the write of {name} "
+                                                             f"finished ({w_end})"))
                     return out
         # downstream stored values are rebuilt in the same run, later
         for m in world["nodes"]:
